@@ -40,4 +40,34 @@ def Cache.get (c : Cache κ ν) (k : κ) : Cache κ ν × Option ν :=
 def Cache.insert (c : Cache κ ν) (k : κ) (v : ν) : Cache κ ν :=
   { c with data := wr c.data (c.index k) (some (k, v)) }
 
+/-! ### repeated operations (for histories with 2^32 and more repetitions of one call)
+
+`insertN`, `clearN`, `getN` are the n-fold iterates; the `…Fast` versions are what the driver runs;
+`BddProofs/CacheRep.lean` proves them equal. -/
+
+def Cache.insertN (c : Cache κ ν) (k : κ) (v : ν) : Nat → Cache κ ν
+  | 0 => c
+  | n + 1 => (c.insertN k v n).insert k v
+
+def Cache.insertNFast (c : Cache κ ν) (k : κ) (v : ν) (n : Nat) : Cache κ ν :=
+  if n = 0 then c else c.insert k v
+
+def Cache.clearN (c : Cache κ ν) : Nat → Cache κ ν
+  | 0 => c
+  | n + 1 => (c.clearN n).clear
+
+def Cache.clearNFast (c : Cache κ ν) (n : Nat) : Cache κ ν := if n = 0 then c else c.clear
+
+/-- n lookups of the same key: the state after the last one and the (common) answer of all of them -/
+def Cache.getN (c : Cache κ ν) (k : κ) : Nat → Cache κ ν × Option ν
+  | 0 => (c, c.lookup k)
+  | n + 1 => ((c.getN k n).1.get k)
+
+def Cache.getNFast (c : Cache κ ν) (k : κ) (n : Nat) : Cache κ ν × Option ν :=
+  match rd c.data (c.index k) with
+  | some (k', v) =>
+    if k' = k then ({ c with hits := c.hits + n }, some v)
+    else ({ c with faults := c.faults + n, misses := c.misses + n }, none)
+  | none => ({ c with misses := c.misses + n }, none)
+
 end P
